@@ -30,7 +30,7 @@ var (
 	aliasPool    = []string{"x", "Y", "z.Example"}
 	holds        = []string{"prepick", "preconnect", "headers", "stream"}
 	kinds        = []string{"delete-cluster", "drop-endpoint", "replace-endpoints", "drop-alias", "disable-endpoint", "recreate-cluster",
-		"cycle-drop-endpoint", "cycle-delete-cluster"}
+		"cycle-drop-endpoint", "cycle-delete-cluster", "disable-then-drop-endpoint", "drop-endpoint-dup"}
 	points = []string{"before", "prepick", "preconnect", "headers", "stream"}
 )
 
@@ -74,8 +74,8 @@ func (g *gen) servers(min int) []Srv {
 		}
 		if len(out) >= min {
 			g.r.Shuffle(len(out), func(i, j int) { out[i], out[j] = out[j], out[i] })
-			if g.r.Intn(8) == 0 && len(out) > 0 {
-				out = append(out, out[0]) // a duplicated entry
+			if g.r.Intn(3) == 0 && len(out) > 0 {
+				out = dupPad(g.r, out, len(out)+1+g.r.Intn(2)) // the same endpoint two or three times
 			}
 			return out
 		}
@@ -172,6 +172,21 @@ func (g *gen) finishAll() {
 	}
 }
 
+// dupPad pads a server list with copies of its own entries (some with the other disabled flag) up to n entries and
+// shuffles it: same set of endpoints, more entries.
+func dupPad(r *rand.Rand, l []Srv, n int) []Srv {
+	out := append([]Srv{}, l...)
+	for len(l) > 0 && len(out) < n {
+		c := l[r.Intn(len(l))]
+		if r.Intn(4) == 0 {
+			c.Disabled = !c.Disabled
+		}
+		out = append(out, c)
+	}
+	r.Shuffle(len(out), func(i, j int) { out[i], out[j] = out[j], out[i] })
+	return out
+}
+
 func otherName(r *rand.Rand, not string) string {
 	for {
 		n := clusterNames[r.Intn(len(clusterNames))]
@@ -189,10 +204,17 @@ func template(r *rand.Rand, kind, point string) Case {
 	B := otherName(r, A)
 	var sa []Srv
 	switch kind {
-	case "drop-endpoint", "disable-endpoint", "cycle-drop-endpoint", "cycle-delete-cluster":
+	case "drop-endpoint", "disable-endpoint", "cycle-drop-endpoint", "cycle-delete-cluster", "disable-then-drop-endpoint":
 		sa = []Srv{{Up: r.Intn(nStubs)}}
 		if r.Intn(2) == 0 {
 			sa = append(sa, Srv{Up: (sa[0].Up + 1 + r.Intn(2)) % nStubs})
+		}
+	case "drop-endpoint-dup":
+		// two or three distinct endpoints, so that something is left to duplicate
+		p := r.Perm(nStubs)
+		sa = []Srv{{Up: p[0]}, {Up: p[1]}}
+		if r.Intn(2) == 0 {
+			sa = append(sa, Srv{Up: p[2]})
 		}
 	case "replace-endpoints":
 		sa = []Srv{{Up: r.Intn(nStubs)}}
@@ -282,10 +304,39 @@ func template(r *rand.Rand, kind, point string) Case {
 		g.apply(A, g.aliases(A, false), g.servers(1))
 	case "drop-endpoint", "cycle-drop-endpoint":
 		if len(sa) > 1 {
-			g.apply(A, aa, sa[1:])
+			rest := sa[1:]
+			if r.Intn(3) == 0 {
+				rest = dupPad(r, rest, len(sa))
+			}
+			g.apply(A, aa, rest)
 		} else {
 			g.apply(A, aa, nil)
 		}
+	case "drop-endpoint-dup":
+		// the removed entries are overwritten with copies of kept ones: the list is as long as before (or longer),
+		// only the SET of endpoints shrinks; the copies may carry differing disabled flags
+		k := 1 + r.Intn(len(sa)-1)
+		g.apply(A, aa, dupPad(r, sa[k:], len(sa)+r.Intn(2)))
+	case "disable-then-drop-endpoint":
+		// drain, then remove: the victim endpoint is disabled first (requests streaming on it survive that), maybe
+		// something else happens, and only a later sync drops it — it is disabled at the time of its removal
+		off := append([]Srv{}, sa...)
+		off[0].Disabled = true
+		g.apply(A, aa, off)
+		if r.Intn(2) == 0 {
+			g.start(g.hostOf(A), holds[r.Intn(len(holds))])
+		}
+		if r.Intn(4) == 0 {
+			g.ops = append(g.ops, Op{Op: "health", Up: sa[0].Up, Ok: r.Intn(2) == 0})
+		}
+		if r.Intn(4) == 0 {
+			g.apply(A, aa, off) // a resync with the same object in between
+		}
+		rest := off[1:]
+		if len(rest) > 0 && r.Intn(3) == 0 {
+			rest = dupPad(r, rest, len(sa))
+		}
+		g.apply(A, aa, rest)
 	case "replace-endpoints":
 		g.apply(A, aa, []Srv{{Up: (sa[0].Up + 1 + r.Intn(2)) % nStubs}})
 	case "disable-endpoint":
@@ -379,10 +430,24 @@ func randomCase(r *rand.Rand) Case {
 				// a small edit of the existing object
 				srv := append([]Srv{}, c.servers...)
 				al := append([]string{}, c.aliases...)
-				switch r.Intn(5) {
+				switch r.Intn(6) {
+				case 5:
+					if len(srv) > 1 {
+						j, k := r.Intn(len(srv)), r.Intn(len(srv))
+						srv[j] = srv[k] // entry j overwritten with entry k's address: same length, smaller set
+						if r.Intn(4) == 0 {
+							srv[j].Disabled = !srv[j].Disabled
+						}
+					}
 				case 0:
 					if len(srv) > 0 {
 						j := r.Intn(len(srv))
+						if r.Intn(2) == 0 && !srv[j].Disabled {
+							// drain first, remove with the next edit
+							srv[j].Disabled = true
+							g.apply(name, al, srv)
+							srv = append([]Srv{}, srv...)
+						}
 						srv = append(srv[:j], srv[j+1:]...)
 					}
 				case 1:
@@ -459,6 +524,21 @@ func hasRemovalWithTraffic(cs Case) bool {
 	return false
 }
 
+// rank orders failures by how telling they are: what shows on the wire first (a request not cut, routed to a removed
+// endpoint, probes that go on), then the context / registration judges, then model/code differences.
+func rank(f rig.Failure) int {
+	if f.Kind != "judge" {
+		return 100
+	}
+	for i, c := range []string{"c15.inflight-not-cut", "c15.upstream-left-hanging", "c15.routed-to-removed", "c15.removed-cluster-served",
+		"c15.removed-name-resolves", "c15.unaffected-request-cut", "c15.unaffected-stream-stalled", "c15.probe-after-removal", "c15.live-endpoint-not-probed"} {
+		if f.Class == c {
+			return i
+		}
+	}
+	return 50
+}
+
 func pct(xs []float64, p float64) float64 {
 	if len(xs) == 0 {
 		return 0
@@ -480,6 +560,8 @@ func main() {
 		c.SetRule("a history of 8-30 ops over 3 cluster names, 3 aliases (mixed case) and 3 stub upstreams shared between clusters: create/update/delete of UpstreamCluster objects through syncUpstreamCluster, client requests held at a scripted point of their life (before the pick, connecting, waiting for headers, streaming; plain list and watch), upstream health flips; templates place one removal (delete cluster, drop / replace / disable endpoint, drop alias, delete+recreate) at each point of a victim request's life among bystander streams; distinct = distinct op list; non-trivial = the history removes a cluster, endpoint or alias after at least one request was started")
 		total := newStats()
 		var mu sync.Mutex
+		var allFails []rig.Failure
+		failed := 0 // histories that failed
 		merge := func(s *stats) {
 			mu.Lock()
 			defer mu.Unlock()
@@ -492,11 +574,12 @@ func main() {
 			if len(fails) == 0 {
 				return
 			}
+			// the failure the replay is minimised for: what shows on the wire first (a request not cut, routed to a
+			// removed endpoint, probes that go on), then the context / registration judges, then differences
 			first := fails[0]
 			for _, f := range fails {
-				if f.Kind == "judge" {
+				if rank(f) < rank(first) {
 					first = f
-					break
 				}
 			}
 			if shrink {
@@ -520,9 +603,16 @@ func main() {
 					}
 				}
 			}
-			// a judge failure first, so that the replay of the verdict is the property-level one
-			sort.SliceStable(fails, func(i, j int) bool { return fails[i].Kind == "judge" && fails[j].Kind != "judge" })
-			for _, f := range fails {
+			// the most telling judge failure first, so that the replay of the verdict is the property-level one
+			sort.SliceStable(fails, func(i, j int) bool { return rank(fails[i]) < rank(fails[j]) })
+			mu.Lock()
+			allFails = append(allFails, fails...)
+			failed++
+			mu.Unlock()
+		}
+		flush := func() {
+			sort.SliceStable(allFails, func(i, j int) bool { return rank(allFails[i]) < rank(allFails[j]) })
+			for _, f := range allFails {
 				c.Fail(f)
 			}
 		}
@@ -534,6 +624,7 @@ func main() {
 			}
 			c.Case(rig.Canon(cs.Ops), true, "replay", func() interface{} { return cs })
 			runAndRecord(cs, false)
+			flush()
 			return
 		}
 		// corpus of past failures first
@@ -549,7 +640,7 @@ func main() {
 			env.Case.Tag = "corpus:" + strings.TrimSuffix(filepath.Base(f), ".json")
 			cases = append(cases, *env.Case)
 		}
-		n := c.Budget(120, 3000)
+		n := c.Budget(150, 3000)
 		j0 := c.Rng.Intn(len(kinds) * len(points))
 		for i := 0; i < n; i++ {
 			// every (kind, point) pair comes round, then random histories take every third slot
@@ -568,7 +659,10 @@ func main() {
 			go func() {
 				defer wg.Done()
 				for cs := range ch {
-					if c.NFailures() >= 5 {
+					mu.Lock()
+					enough := failed >= 6
+					mu.Unlock()
+					if enough {
 						continue
 					}
 					runAndRecord(cs, true)
@@ -582,6 +676,7 @@ func main() {
 		}
 		close(ch)
 		wg.Wait()
+		flush()
 		for i := 0; i < total.traces; i++ {
 			c.Trace()
 		}
